@@ -7,12 +7,12 @@ import json, os, shutil, subprocess, sys
 VERIF = os.path.dirname(os.path.dirname(os.path.abspath(__file__)))
 sd, wt, sid = sys.argv[1], sys.argv[2], sys.argv[3]
 def sh(cmd, cwd=None, timeout=900):
-    p = subprocess.run(cmd, shell=True, cwd=cwd, stdout=subprocess.PIPE, stderr=subprocess.STDOUT, text=True, timeout=timeout)
-    return p.returncode, p.stdout
+    p = subprocess.run(cmd, shell=True, cwd=cwd, stdout=subprocess.PIPE, stderr=subprocess.STDOUT, timeout=timeout)
+    return p.returncode, p.stdout.decode("utf-8", "replace")
 def demo():
     if os.path.exists(os.path.join(sd, "run.sh")):
         return sh("WT=%s sh %s/run.sh" % (wt, sd), cwd=sd)
-    return sh("/venv/bin/python %s/demo.py" % sd, cwd=os.path.join(wt, "src/target/trx_toolkit"))
+    return sh("PYTHONPATH=. /venv/bin/python %s/demo.py" % sd, cwd=os.path.join(wt, "src/target/trx_toolkit"))
 def tests():
     rc, out = sh("/venv/bin/python -m pytest -q -p no:cacheprovider --timeout=900 src/target/trx_toolkit 2>&1 | tail -3", cwd=wt)
     return out.strip().splitlines()[-1] if out.strip() else "?"
